@@ -344,14 +344,14 @@ Lemma loop_bs : forall rem i hs qs blocks a2 a3 k s m,
       (ONormal (lst i' st g a2' a3' (pu ++ ps) (nu ++ ns) (blocks' ++ nones j) k' s' m')) /\
     prefix_of m m' /\ zlen pu = v /\ zlen nu = v /\ pu = hs' ++ pn /\ Forall (fun c => as_ptr c = VNull) pn /\
     vas m' BASE hs' blocks' /\ ImpFactsRelease.elem_ptrs m' nu /\
-    ((g = 0 /\ st = 0 /\ j = 0%nat /\ props_end rem s = Some s') \/ (g = 1 /\ st < 0)).
+    ((g = 0 /\ st = 0 /\ j = 0%nat /\ props_end rem s = Some s' /\ Forall byte s') \/ (g = 1 /\ st < 0)).
 Proof.
   pose proof (capacity_upper v ltac:(lia)) as (Hc1 & Hc8).
   induction rem as [|rem IH]; intros i hs qs blocks a2 a3 k s m Hrem Hi Hhs Hqs V Hel Hs NBP Hm.
   - (* all properties read *)
     assert (Ei : i = v) by lia. rewrite Ei in *. clear Ei.
     exists 0, 0, v, a2, a3, hs, (zeros (Z.to_nat (cap - v))), qs, (zeros (Z.to_nat (cap - v))), hs, [], blocks, 0%nat, k, s, m.
-    split; [|split; [exists []; now rewrite app_nil_r|split; [exact Hhs|split; [exact Hqs|split; [now rewrite app_nil_r|split; [constructor|split; [exact V|split; [exact Hel|left; repeat split; reflexivity]]]]]]]].
+    split; [|split; [exists []; now rewrite app_nil_r|split; [exact Hhs|split; [exact Hqs|split; [now rewrite app_nil_r|split; [constructor|split; [exact V|split; [exact Hel|left; repeat split; try reflexivity; exact Hs]]]]]]]].
     unfold cs_loop, cs_props_seq, cs_body. cbn [fbody prog_sbdf_cs_read]. unl. unfold nones. cbn [repeat]. rewrite app_nil_r.
     eapply bsE_while_f; [evl; chk7; evl; rewrite Z.ltb_irrefl; reflexivity|reflexivity].
   - assert (Hiv : i < v) by lia.
@@ -470,7 +470,7 @@ Lemma props_main k2 s3 : Forall byte s3 -> props_nobit (Z.to_nat v) s3 ->
   exists st l' k' s' h' m',
     (exists sB, bsE prog_env cs_props_seq (s6 bv o rf rp fo po so h v k2 s3 blkV newbV m2) (OBreak sB) /\ tl_ok st sB l' k' s' h' m') /\
     prefix_of m2 m' /\
-    ((st = SBDF_OK /\ c_so l' = VCell L 0 /\ releasable bv o h h' m' /\ props_end (Z.to_nat v) s3 = Some s')
+    ((st = SBDF_OK /\ c_so l' = VCell L 0 /\ releasable bv o h h' m' /\ props_end (Z.to_nat v) s3 = Some s' /\ Forall byte s')
      \/ (st < 0 /\ c_so l' = so /\ exists j, h' = h ++ nones j)).
 Proof.
   intros Hs3 NBP.
@@ -590,7 +590,7 @@ Proof.
   cbn [app] in BL. replace (Z.to_nat (cap - 0)) with c in BL by (unfold c; lia).
   assert (BODY : bsE prog_env cs_props_seq (s6 bv o rf rp fo po so h v k2 s3 blkV newbV m2) (OBreak (lst i' st g a2' a3' (pu ++ ps) (nu ++ ns) (blocks' ++ nones j) k' s' m'))).
   { unfold cs_loop, cs_props_seq, cs_body in *. cbn [fbody prog_sbdf_cs_read] in *.
-    destruct R7 as [(-> & -> & -> & PE)|(-> & Hneg)].
+    destruct R7 as [(-> & -> & -> & PE & PBy)|(-> & Hneg)].
     - (* the loop ran through *)
       eapply bsE_seq; [|apply bsE_break].
       eapply bsE_if; [unfold s6, crf, fr; cbn [c_cap c_err c_i c_t c_v c_a1 c_a2 c_a3 c_goto c_so app]; evl; chk7; evl; reflexivity|cbn [truth]; replace (v >? 0) with true by lia; reflexivity|].
@@ -622,13 +622,13 @@ Proof.
                  (fr [("cs"%string, VCell L 0); ("i"%string, VUndef)] bv kk sxx (HP slv (pu ++ ps) (nu ++ ns) (blocks' ++ nones j)) m' o)
                  (OReturn (VInt 0) (fr [("cs"%string, VCell L 0); ("i"%string, VUndef)] bv kk sxx (h ++ nones (List.length HNEW)) m' o))).
   { intros kk sxx. pose proof (DGx h [] m' kk sxx eq_refl ltac:(lia)) as D. rewrite !app_nil_r in D. exact D. }
-  destruct R7 as [(-> & -> & -> & PE)|(-> & Hneg)].
+  destruct R7 as [(-> & -> & -> & PE & PBy)|(-> & Hneg)].
   - (* every property was read: the slice is handed out *)
     exists SBDF_OK. eexists (Build_crl _ _ _ _ _ _ _ _ _ _). do 4 eexists. split; [|split; [exact Pf|left]].
     + eexists. split; [exact BODY|]. unfold tl_ok, cs_tail. cbn [fbody prog_sbdf_cs_read]. unl.
       eapply bsE_seq; [eapply bsE_if; [evl; reflexivity|reflexivity|]; eapply bsE_expr; evl; reflexivity|].
       eapply bsE_return. evl. reflexivity.
-    + split; [reflexivity|]. split; [reflexivity|]. split; [|exact PE].
+    + split; [reflexivity|]. split; [reflexivity|]. split; [|split; [exact PE|exact PBy]].
       exists HNEW. split; [reflexivity|]. split; [unfold HNEW; cbn [List.length]; lia|exact DGx].
   - (* a property could not be read: everything is released *)
     exists st. eexists (Build_crl _ _ _ _ _ _ _ _ _ _). do 4 eexists. split; [|split; [exact Pf|right]].
@@ -691,7 +691,7 @@ Proof.
   destruct (cs_read_gen (VInt 0) [] rf rp fo po VUndef k sx h m Hs NB NBP (props_ok (VInt 0) [] rf rp fo po VUndef h)) as (st & l' & k' & s' & h' & m' & B & Pf & Out).
   destruct (bsE_sound _ _ _ _ B) as (f0 & F). exists f0. intros f Hf. exists st. eexists. split; [apply F; exact Hf|]. split; [exact Pf|].
   destruct l'. cbv [ImpFactsCsRead.c_so] in Out.
-  destruct Out as [(-> & -> & (hnew & -> & Hn & D) & s1 & va & s2 & v & s3 & E1 & E2 & E3 & E4 & E5)|(Hn & -> & j & ->)].
+  destruct Out as [(-> & -> & (hnew & -> & Hn & D) & s1 & va & s2 & v & s3 & E1 & E2 & E3 & E4 & E5 & _)|(Hn & -> & j & ->)].
   - left. split; [reflexivity|]. split; [reflexivity|]. split; [exists s1, va, s2, v, s3, s'; repeat split; assumption|].
     exists hnew. split; [reflexivity|]. split; [exact Hn|].
     intros k2 s2'. pose proof (D h [] m' k2 s2' eq_refl (Z.le_refl _)) as D2. rewrite !app_nil_r in D2. destruct (bsE_sound _ _ _ _ D2) as (f1 & F1). exists f1. intros g Hg.
